@@ -2,7 +2,7 @@
 from jsonpath import JSONPointer, RelativeJSONPointer
 
 from . import sx as SX
-from .common import exc_name, parts_typed, parts_to_sx, sx_parts_typed
+from .common import pointer_of_typed_parts, exc_name, parts_typed, parts_to_sx, sx_parts_typed
 
 ID = "C16"
 PROP_FILE = "props/C16.v"
@@ -55,7 +55,7 @@ def to_sx(case):
 
 def impl(case):
     parts = tuple(p[1] for p in case["base"])
-    base = JSONPointer(JSONPointer._encode(parts), parts=parts, unicode_escape=False)
+    base = pointer_of_typed_parts(parts)
     try:
         r = RelativeJSONPointer(case["rel"], unicode_escape=case["mode"])
     except Exception as e:  # noqa: BLE001
